@@ -454,7 +454,7 @@ def jobs(tier):
                 for bare in (True, False):
                     out.append(('pop', 'case_pop', dict(
                         units=[hier.unit(kind, nd)], n_samples=ns, bare=bare,
-                        n_ids=2), {'max_paths': 600, 'replay_candidates': 1}))
+                        n_ids=2), {'max_paths': 600, 'replay_candidates': 1, 'facts_final': True}))
     pairs = [('gaussian', 'lognormal'), ('pooled', 'gaussian_nc'),
              ('lognormal_nc', 'hetero'), ('truncgauss', 'gaussian'),
              ('hetero', 'pooled')]
@@ -463,7 +463,7 @@ def jobs(tier):
     for a, b in pairs:
         out.append(('pop', 'case_pop', dict(
             units=[hier.unit(a, 1), hier.unit(b, 2 if not q else 1)],
-            n_samples=2, n_ids=2), {'max_paths': 600, 'replay_candidates': 1}))
+            n_samples=2, n_ids=2), {'max_paths': 600, 'replay_candidates': 1, 'facts_final': True}))
     covk = ['gaussian', 'lognormal', 'gaussian_nc', 'pooled', 'truncgauss',
             'lognormal_nc']
     for k in covk:
@@ -471,7 +471,7 @@ def jobs(tier):
             for bare in (True, False):
                 out.append(('pop', 'case_pop', dict(
                     units=[hier.unit(k, 1, nc)], n_samples=2, bare=bare,
-                    n_ids=2), {'replay_candidates': 1}))
+                    n_ids=2), {'replay_candidates': 1, 'facts_final': True}))
             out.append(('pop', 'case_pop', dict(
                 units=[hier.unit(k, 1, nc), hier.unit('gaussian', 1)],
                 n_samples=1, n_ids=2), {}))
